@@ -51,6 +51,9 @@ def tcoWriteExempt : List (Meth × Attr × Cv) := [
   (m_DataLinkConnection_enqueue, a_send_queue, cv_send_ready),         -- append (also outside the lock)
   (m_DataLinkConnection_send, a_send_cnt, cv_send_token),              -- V(S)+1 closes the window further
   (m_DataLinkConnection__poll, a_acks_recvd, cv_acks_ready),           -- decrement; waiters wait for > 0
+  -- clear() of unread data before the DISC handshake (fix of C05): emptying the queue cannot make a guard of
+  -- recv_ready true, its waiters wait for a NON-empty queue
+  (m_DataLinkConnection_close, a_recv_queue, cv_recv_ready),
   -- clear() followed by append(): the queue stays non-empty and send_buf is constantly 1
   (m_DataLinkConnection_close, a_send_queue, cv_send_ready),
   (m_DataLinkConnection__enqueue_state_established, a_send_queue, cv_send_ready),
@@ -195,10 +198,13 @@ theorem tco_notify_sites :
   decide
 
 /-- no exemption is superfluous: removing any single entry makes the check of `DataLinkConnection`
-(or, for the `dequeue` notify of the base class, of `RawAccessPoint`) fail -/
+(or, for the `dequeue` notify of the base class, of `RawAccessPoint`) fail.  A write exemption whose
+(method, attribute) is not a write site of the current source is vacuous (it exempts nothing); this
+is the case of `DataLinkConnection.close / recv_queue` on a tree without the C05 repair. -/
 theorem tco_exemptions_used :
-    tcoWriteExempt.all (fun e => !disciplineOk { cfgDlc with writeExempt := tcoWriteExempt.filter (· != e) }
-      program entriesDlc) = true
+    tcoWriteExempt.all (fun e =>
+      !disciplineOk { cfgDlc with writeExempt := tcoWriteExempt.filter (· != e) } program entriesDlc
+      || !(program.flatMap writeSites).contains (e.1, e.2.1)) = true
     ∧ tcoWaitExempt.all (fun e => !disciplineOk { cfgDlc with waitExempt := tcoWaitExempt.filter (· != e) }
       program entriesDlc) = true
     ∧ tcoNotifyExempt.all (fun e =>
